@@ -22,13 +22,20 @@ SIMPLE_SPEC = {
                         {"attr": "l", "kind": "Light", "name": "LGT", "label": None, "state": "Ok", "enabled": True,
                          "elements": [{"attr": "a", "name": "A", "label": None, "default": "Idle", "enabled": True}]},
                         {"attr": "bl", "kind": "BLOB", "name": "BLB", "label": None, "state": "Ok", "perm": "rw", "timeout": 0, "enabled": True,
-                         "elements": [{"attr": "a", "name": "A", "label": None, "default": None, "enabled": True}]},
+                         "elements": [{"attr": "a", "name": "A", "label": None, "default": None, "enabled": True},
+                                      {"attr": "b", "name": "B", "label": None, "default": None, "enabled": True}]},
                     ],
                 }
             ]
         }
     ],
 }
+
+
+import copy
+
+SECOND_SPEC = copy.deepcopy(SIMPLE_SPEC)
+SECOND_SPEC["name"] = "DEV2"
 
 
 class Peer:
